@@ -24,6 +24,8 @@ THEOREMS = [
     "C22_cycle_reported",
     "C22_outcome_sound",
     "C22_resolution_terminates",
+    "C22_neutral_after_cancellations",
+    "C22_lock_free_after_all_ended",
     "C22_concurrent",
     "C22_sequential",
     "C22_resolution_terminates_sequential",
@@ -51,7 +53,13 @@ EXPLANATION = (
     "Factories carry the value they return (object, None, 0, '', [], False): a factory returns at most once per "
     "invocation (C22_created_once_per_invocation) and no transition reads the value (C22_value_independent: the runs "
     "of a graph and of the same graph with all values replaced by ordinary objects are equal), so a stored falsy "
-    "value is a cache hit like any other. The same statements for serial schedules of "
+    "value is a cache hit like any other. Schedules include cancel actions (CancelledError thrown into an invocation "
+    "suspended in an async factory at any depth of its chain, or queued on the scope lock), so all of the above holds "
+    "after any mix of completions, errors and cancellations, and whenever no invocation is inside a scope _resolving, "
+    "the depth and the scoped cache are neutral (C22_neutral_after_cancellations), and once every invocation has ended "
+    "the lock is free and its queue empty (C22_lock_free_after_all_ended); the runs cancel invocations at "
+    "those points, end workflow runs with cancel_run while a step is suspended in a resource factory and run the same "
+    "workflow instance again. The same statements for serial schedules of "
     "the unlocked code (C22_sequential), and three refutations of the unlocked code by concrete interleavings (false "
     "cycle error, non-cached object shared by two invocations, stale scoped value after a bare get). C22_concurrent "
     "is stated for the configuration regenerated from the sources, so it only checks on a tree with exclusive scopes. "
@@ -70,8 +78,11 @@ ASSUMPTIONS = [
     "asyncio.Lock are assumed, exercised by the correspondence runs, not proved)",
     "an async factory suspends exactly once per call; a sync factory never (a factory that awaits several times "
     "changes no manager state in between)",
-    "task cancellation while resolving (CancelledError thrown into a suspended factory or lock wait) is not modelled; "
-    "the code's try/finally and `async with` handle it and the workflow-level monitors run over such executions",
+    "cancellation is modelled where a task can receive it at a quiescent point: suspended at the await of an async "
+    "factory (CancelledError then unwinds every _get activation like an exception) or queued on the scope lock; that "
+    "asyncio.Lock passes a lock on when a woken waiter is cancelled, and that the engine cancels all workers of a run "
+    "before any of them runs again (cleanup_tasks), is exercised by the correspondence runs, not proved; a run ended by the workflow timeout goes through the "
+    "same cleanup_tasks as cancel_run and is not driven separately",
     "one descriptor per resource name; ResourceManager.set() by hand and _ResourceConfig (no dependencies, always "
     "cached) are outside the model",
     "tasks are created by invocations that have finished resolving (their scope is closed); a task created while its "
@@ -200,7 +211,7 @@ class Chooser:
     """Adaptive schedule: at every quiescent point spawn the next task or open a gate."""
 
     def __init__(self, rng: random.Random, g: list[dict], ntasks: int, style: str, excl: bool = True,
-                 tree: bool = False):
+                 tree: bool = False, cancel: bool = False):
         self.rng, self.g, self.ntasks, self.style = rng, g, ntasks, style
         # task trees: an invocation that has finished (it resolved its resources, its scope is closed) creates
         # later invocations, which start in a copy of its context -- resolve-then-spawn, nested to any depth
@@ -215,6 +226,13 @@ class Chooser:
         self.stop_early = rng.random() < 0.08
         self.bad = rng.random() < 0.15
         self.reloop = rng.random() < 0.2
+        # cancellation: an unfinished invocation -- suspended at the await inside an async factory (at any
+        # depth of its dependency chain) or queued on the scope lock -- is cancelled, as the engine does to
+        # step workers on cancel_run / workflow timeout / cleanup; the schedule then goes on with the same
+        # manager (invocations queued behind it, later ones)
+        self.p_cancel = rng.choice([0.15, 0.3, 0.5]) if cancel else 0.0
+        self.cancels = 0
+        self.after_cancel = 0  # extra invocations granted after a cancellation
 
     def _spawn(self, mode: str, reqs: list[int], finished: list[int]) -> list:
         if self.tree and finished and self.rng.random() < self.p_child:
@@ -223,9 +241,19 @@ class Chooser:
             return ["spawn", mode, reqs, parent]
         return ["spawn", mode, reqs]
 
-    def __call__(self, gates: list[int], ntasks_now: int, finished: list[int] = ()) -> list | None:  # type: ignore[assignment]
+    def __call__(self, gates: list[int], ntasks_now: int, finished: list[int] = (),  # type: ignore[assignment]
+                 live: list[int] = ()) -> list | None:  # type: ignore[assignment]
         rng = self.rng
         finished = list(finished)
+        live = list(live)
+        if live and self.cancels < 3 and rng.random() < self.p_cancel:
+            self.cancels += 1
+            if self.after_cancel < 2:
+                self.after_cancel += 1
+                self.ntasks += 1  # somebody resolves on this manager afterwards
+            # mostly the invocation inside the scope (suspended in a factory), sometimes one queued on the lock
+            pool = [t for t in live if t in gates] if gates and rng.random() < 0.7 else live
+            return ["cancel", rng.choice(pool)]
         can_spawn = self.spawned < self.ntasks
         if not can_spawn and not gates:
             return None
@@ -234,6 +262,8 @@ class Chooser:
         if self.stop_early and self.spawned >= 1 and rng.random() < 0.15:
             return None
         if self.bad and rng.random() < 0.1:
+            if self.p_cancel and rng.random() < 0.5:
+                return ["cancel", rng.choice([t for t in range(ntasks_now + 2) if t not in live])]
             return ["open", rng.choice([t for t in range(ntasks_now + 2) if t not in gates])]
         if self.style == "serial":
             spawn = can_spawn and not gates
@@ -320,10 +350,32 @@ def ctag(info: dict) -> str:
         # some invocation was created by a task that had resolved resources before (it started in a copy of
         # that task's context: a child workflow run from a step with injected resources, a warmed-up caller)
         tag += "[created-by-a-resolver]"
+    if any(rec.get("outcome") == "cancelled" for rec in info["tasks"]) or info.get("run_cancelled"):
+        # some invocation was cancelled while it was resolving (suspended in a factory / queued on the lock)
+        tag += "[after-cancellation]"
     return tag
 
 
-def monitor(g: list[dict], info: dict, all_opened: bool, final_state: str | None) -> list[tuple[str, str]]:
+def neutral_violations(states: list[str], tag: str) -> list[tuple[str, str]]:
+    """While no invocation is inside a resolution scope -- none is suspended in a factory; in particular once
+    every invocation has ended, however it ended -- the manager's resolution bookkeeping has to be what a new
+    manager has: nothing marked as being resolved, depth 0, no scoped value, lock free.  `states`: the
+    manager's bookkeeping + the phases of the invocations (D ended, S suspended in a factory, W queued on the
+    scope lock) at quiescent points."""
+    for st_line in states:
+        st = dict(kv.split("=", 1) for kv in st_line.split(" "))
+        if "S" in st["ph"] or "A" in st["ph"]:
+            continue
+        left = [name for name, dirty in (("_resolving", bool(st["rs"])), ("depth", st["d"] != "0"),
+                                         ("scoped-cache", bool(st["sc"])), ("lock", st["lk"] != "0")) if dirty]
+        if left:
+            when = "every invocation has ended" if set(st["ph"]) <= {"D"} else "no invocation is inside a scope"
+            return [(f"C22/stale_resolution_state[{','.join(left)}]{tag}",
+                     f"{when} but the manager keeps {st_line}")]
+    return []
+
+
+def monitor(g: list[dict], info: dict, all_opened: bool, states: list[str] | None) -> list[tuple[str, str]]:
     """Returns (signature, what) pairs."""
     res: list[tuple[str, str]] = []
     evs = parse_events(info["events"])
@@ -411,8 +463,13 @@ def monitor(g: list[dict], info: dict, all_opened: bool, final_state: str | None
         # invocations ran one after another: the exact number of creations per invocation follows from the graph
         created: set[int] = set()
         for t, rec in enumerate(info["tasks"]):
-            if rec["outcome"] is None or rec["outcome"] == "cancelled" or any(not 0 <= r < n for r in rec["reqs"]):
+            if rec["outcome"] is None or any(not 0 <= r < n for r in rec["reqs"]):
                 break
+            if rec["outcome"] == "cancelled":
+                # it stopped where the schedule cancelled it: what it had completed by then stays created
+                # (cached) or is dropped with its scope (non-cached); the invocations after it start afresh
+                created |= {r for (t2, r) in made_by if t2 == t and g[r]["c"]}
+                continue
             exp, _stop = expected_creations(g, rec["reqs"], created)
             act = {r: len(l) for (t2, r), l in made_by.items() if t2 == t}
             bad = [r for r in sorted(set(act) | set(exp)) if act.get(r, 0) != exp.get(r, 0)]
@@ -449,10 +506,8 @@ def monitor(g: list[dict], info: dict, all_opened: bool, final_state: str | None
         if genuine and not any_fail and not (o.startswith("cycle:") or o == "cancelled"):
             if not o.startswith("ok:"):
                 res.append((f"C22/cycle_not_reported{tag}", f"invocation {t} requesting {reqs}: a cycle is reachable, outcome {o}"))
-    if final_state is not None:
-        st = dict(kv.split("=", 1) for kv in final_state.split(" "))
-        if set(st["ph"]) <= {"D"} and (st["rs"] or st["d"] != "0" or st["sc"] or st["lk"] != "0"):
-            res.append(("C22/stale_resolution_state", f"every invocation has finished but the manager keeps {final_state}"))
+    if states:
+        res += neutral_violations(states, tag)
     return res
 
 
@@ -481,6 +536,38 @@ def count_values(out: Outcome, label: str, g: list[dict]) -> None:
         if any(RL.vkind(r) and sum(1 for q in g if i in q["d"]) + sum(q["d"].count(i) > 1 for q in g) >= 2
                for i, r in enumerate(g)):
             out.count(f"{label}:falsy-valued-resource-with-two-consumers")
+
+
+def count_cancels(out: Outcome, label: str, g: list[dict], ops: list[list], lines: list[str], info: dict) -> None:
+    """Input distribution of the cancellation scenarios (from the executed schedule)."""
+    prev_ph, prev_rs = "", ""
+    seen_cancel = False
+    i = 0
+    for op in ops:
+        if i >= len(lines):
+            break
+        if op[0] == "loop" and lines[i] != "bad-op":
+            continue  # a new event loop: no line
+        l = lines[i]
+        i += 1
+        if " | " not in l:
+            continue
+        st = dict(kv.split("=", 1) for kv in l.split(" | ", 1)[1].split(" "))
+        if op[0] == "cancel":
+            t = op[1]
+            ph = prev_ph[t] if 0 <= t < len(prev_ph) else "?"
+            out.count(f"{label}:cancel:" + {"S": "suspended-in-a-factory", "W": "queued-on-the-scope-lock"}.get(ph, ph))
+            if ph == "S":
+                if "." in prev_rs:
+                    out.count(f"{label}:cancel:inside-a-dependency-of-the-requested-resource")
+                if "W" in prev_ph:
+                    out.count(f"{label}:cancel:with-invocations-queued-behind-it")
+            seen_cancel = True
+        elif op[0] == "spawn" and seen_cancel:
+            out.count(f"{label}:invocation-started-after-a-cancellation")
+        prev_ph, prev_rs = st["ph"], st["rs"]
+    if seen_cancel:
+        out.count(f"{label}:cases-with-a-cancellation")
 
 
 def run_cases(cases: list[dict], cfg: dict, out: Outcome, label: str) -> None:
@@ -516,6 +603,7 @@ def run_cases(cases: list[dict], cfg: dict, out: Outcome, label: str) -> None:
             if info["overlapped"]:
                 out.count(f"{label}:task-tree:overlapping")
         count_values(out, label, g)
+        count_cancels(out, label, g, ops, lines, info)
         for rec in info["tasks"]:
             o = rec["outcome"]
             out.count(f"{label}:outcome:" + ("pending" if o is None else o.split(":")[0]))
@@ -530,9 +618,9 @@ def run_cases(cases: list[dict], cfg: dict, out: Outcome, label: str) -> None:
             if d is not None and not out.divergences:
                 out.divergences.append(d)
         pos += n
-        final = lines[-1].split(" | ", 1)[1] if lines and " | " in lines[-1] else None
+        states = [l.split(" | ", 1)[1] for l in lines if " | " in l]
         all_opened = not info.get("gates")
-        for sig, what in monitor(g, info, all_opened, final):
+        for sig, what in monitor(g, info, all_opened, states):
             out.violations.append(Violation(sig, what, {"kind": "direct", **case}))
 
 
@@ -541,14 +629,20 @@ def run_case(case: dict, cfg: dict, out: Outcome, label: str) -> None:
 
 
 def gen_case(rng: random.Random, style: str | None = None, max_tasks: int = 4, excl: bool = True,
-             tree: bool | None = None) -> dict:
+             tree: bool | None = None, cancel: bool | None = None) -> dict:
     g, kind = gen_graph(rng)
     style = style or rng.choices(["mixed", "burst", "serial"], [6, 3, 2])[0]
     tree = rng.random() < 0.3 if tree is None else tree
+    # cancellation needs exclusive scopes on the model side (the unlocked configuration is only modelled for
+    # the schedules of its witnesses) and a factory that suspends
+    cancel = (excl and rng.random() < 0.35) if cancel is None else cancel
+    if cancel and not any(r["a"] for r in g):
+        g[rng.randrange(len(g))]["a"] = 1
     ntasks = rng.randint(3 if tree else 1, max(3, max_tasks))
-    ch = Chooser(rng, g, ntasks, style, excl, tree)
+    ch = Chooser(rng, g, ntasks, style, excl, tree, cancel)
     ops = RL.explore_direct(g, ch)
-    return {"g": g, "ops": ops, "shape": kind, "style": style + ("+tree" if tree else "")}
+    return {"g": g, "ops": ops, "shape": kind,
+            "style": style + ("+tree" if tree else "") + ("+cancel" if cancel else "")}
 
 
 # --------------------------------------------------------------------------
@@ -582,6 +676,14 @@ def run_wf_cases(cases: list[dict], cfg: dict, out: Outcome) -> None:
             out.count("workflow:run-from-a-step-of-an-enclosing-workflow")
         if case.get("pre"):
             out.count("workflow:caller-resolved-a-resource-first")
+        if info.get("run_results"):
+            out.count("workflow:second-run-of-the-same-instance")
+            if info.get("run_cancelled"):
+                out.count("workflow:earlier-run-cancelled-with-a-step-suspended-in-a-resource-factory")
+                if any(st.count("W") for st in [l.rsplit(" ph=", 1)[1] for l in lines if " ph=" in l]):
+                    out.count("workflow:...with-steps-queued-on-the-scope-lock")
+            for rr in info["run_results"]:
+                out.count("workflow:earlier-run:" + rr.split(":")[0] + (":" + rr.split(":")[1] if rr.startswith("error") else ""))
         count_values(out, "workflow", g)
         out.count("workflow:result:" + info["result"].split(":")[0])
         out.nontrivial(("wf", g, case["workers"], ops))
@@ -592,6 +694,7 @@ def run_wf_cases(cases: list[dict], cfg: dict, out: Outcome) -> None:
         # same.  Compare the flattened event stream -- up to the first failing invocation, after which the engine
         # cancels the other workers (the model has no cancellation) -- and, without a failure, the final state.
         empty = {t for t, rec in enumerate(info["tasks"]) if not rec["reqs"]}  # never wait, never resolve
+        multi = bool(info.get("run_results"))  # earlier runs of the same instance, ended by cancel_run
 
         def flat(ls: list[str]) -> tuple[list[str], bool]:
             toks: list[str] = []
@@ -601,6 +704,8 @@ def run_wf_cases(cases: list[dict], cfg: dict, out: Outcome) -> None:
                     continue
                 for tok in l.split(" | ")[0].split(" "):
                     if tok and int(tok.split(":")[1]) not in empty:
+                        if multi and tok.startswith("fin:") and tok.split(":")[2] == "cancelled":
+                            continue  # the workers of a run that is ended are cancelled in no observable order
                         toks.append(tok)
                         if tok.startswith("fin:") and tok.split(":")[2] != "ok":
                             return toks, True
@@ -619,7 +724,9 @@ def run_wf_cases(cases: list[dict], cfg: dict, out: Outcome) -> None:
             if d is not None and not out.divergences:
                 out.divergences.append(d)
         pos += n
-        for sig, what in monitor(g, info, info["all_opened"], None):
+        # between the runs of the instance and at the end no invocation is inside a scope
+        ends = [st for st in info.get("run_end_states", []) if set(st.rsplit(" ph=", 1)[1]) <= {"D"}]
+        for sig, what in monitor(g, info, info["all_opened"], ends):
             out.violations.append(Violation(sig, what, {"kind": "workflow", **case}))
         if info["result"] == "stuck":
             out.violations.append(Violation(
@@ -658,6 +765,12 @@ def gen_wf_case(rng: random.Random) -> dict:
         case["outer"] = rng.choice([1, 1, 2])
     if rng.random() < 0.25:
         case["pre"] = [rng.randrange(len(g)) for _ in range(rng.choice([1, 1, 2]))]
+    # earlier runs of the same workflow instance (one ResourceManager per instance), ended by cancel_run while a
+    # step is suspended inside a resource factory; then the run that has to complete
+    if "outer" not in case and rng.random() < 0.45:
+        if not any(r["a"] for r in g):
+            g[rng.randrange(len(g))]["a"] = 1
+        case["runs"] = [{"end": "cancel", "after": rng.choice([0, 0, 1, 2])} for _ in range(rng.choice([1, 1, 2]))]
     return case
 
 
@@ -690,7 +803,10 @@ def run(env: Env) -> Outcome:
                 "x adaptive schedules of 1-6 invocations (real partial() or bare get) opening gates at quiescent points, "
                 "in 30% of the cases as a task tree (invocations created by finished invocations, in a copy of their "
                 "context, nested); real workflows with concurrent worker steps, 40% run from a step with an injected "
-                "resource of 1-2 enclosing workflows, 25% after the caller resolved resources through the manager; non-trivial = at least two invocations or a dependency edge; "
+                "resource of 1-2 enclosing workflows, 25% after the caller resolved resources through the manager; 35% of the "
+                "direct schedules cancel up to 3 unfinished invocations (suspended in a factory / queued on the lock) and go on; "
+                "45% of the stand-alone workflows first have 1-2 runs ended by cancel_run with a step suspended in a resource "
+                "factory, then run the same instance to completion; non-trivial = at least two invocations or a dependency edge; "
                 "distinct by (graph, op list)")
     cfg = tree_cfg()
     out.notes.append(f"tree configuration: exclusive scopes={cfg['excl']} partial skips empty={cfg['skip']}")
